@@ -1301,8 +1301,17 @@ struct TrackAlloc {
 // garbage instead of the zeroes a fresh process usually hands out. (Automatic objects get -ftrivial-auto-var-init=pattern.)
 #if !VRF_ASAN
 #include <malloc.h>
+namespace vrf {
+// failpoint: the n-th `operator new` of this thread from now on throws bad_alloc (0 = off); new_faults counts the firings
+inline thread_local long tl_new_fail_countdown = 0;
+inline thread_local long tl_new_faults = 0;
+}  // namespace vrf
 void* operator new(std::size_t n)
 {
+    if (vrf::tl_new_fail_countdown > 0 && --vrf::tl_new_fail_countdown == 0) {
+        vrf::tl_new_faults++;
+        throw std::bad_alloc();
+    }
     void* p = std::malloc(n ? n : 1);
     if (p == nullptr) throw std::bad_alloc();
     std::memset(p, vrf::g_heap_fill, n);
